@@ -5387,7 +5387,7 @@ class PyCdlib:
             self.eltorito_boot_catalog.add_section(boot_dirrecord.inode,
                                                    sector_count, boot_load_seg,
                                                    media_name, system_type, efi,
-                                                   bootable)
+                                                   bootable, platform_id)
         else:
             # Step 2.
             br = headervd.BootRecord()
